@@ -4,6 +4,7 @@ package eng
 // building SSA; resolving contract blocks to SSA functions.
 
 import (
+	"sync"
 	"time"
 	"fmt"
 	"go/token"
@@ -47,14 +48,13 @@ type Engine struct {
 	nfresh    int
 	Warnings  []string
 	Fuel      int
+	qmu       sync.Mutex
 	Grace     time.Duration // extra time for cvc5 once all z3 instances answered unknown
 	ceCache   map[string]map[string]any
 	HypFuelFull bool
 	NoPrune   bool
-	termRange map[string]ival
 	globalsInit map[*ssa.Global]*Term
 	keySort map[string]*Sort
-	symCells map[string]*Val
 	allFns map[*ssa.Function]bool
 }
 
